@@ -601,14 +601,14 @@ def run(ctx):
             replay_path(ctx, path, tries)
             ctx.ev()
     rng = ctx.rng
-    for k in range(ctx.pick(12, 120)):
+    for k in range(ctx.pick(12, 400)):
         if ctx.out_of_time():
             break
         path = random_walk(ctx, rng, 200, tries=rng.choice([3, 10]), profile="timers" if k % 2 else "mixed")
         if k == 0:
             ctx.sample({"random_walk_head": path[:40]})
     # the same actions through the real proxy protocol (datagram_received -> handle_proxied_packet, drops by an addon)
-    for k in range(ctx.pick(6, 60)):
+    for k in range(ctx.pick(6, 200)):
         if ctx.out_of_time():
             break
         random_walk(ctx, rng, 120, tries=rng.choice([3, 10]), profile="timers" if k % 3 == 2 else "mixed", backend="protocol")
